@@ -394,7 +394,7 @@ def gen_c03(tier, rng):
     i = 0
     for size in sizes:
         for bs in range(0, 4 if tier == "quick" else 5):
-            for entry in range(0, 15):
+            for entry in range(0, 19):
                 kinds = (i % 4,) if tier == "quick" else (0, 1, 2, 3)
                 i += 1
                 for kind in kinds:
@@ -409,7 +409,7 @@ def gen_c03(tier, rng):
 PROPS["C03"] = Prop(
     [F_OUTBOARD], gen_c03,
     "outboard: byte-size classes around chunk and group boundaries up to 32 KiB (quick) / 64 KiB plus every multiple of 512 up to "
-    "32 KiB (thorough) x block sizes 0..3/4 x 15 creation entry points (sync/fsm x pre/post x io/memory, create / create_sized / "
+    "32 KiB (thorough) x block sizes 0..3/4 x 19 creation entry points (incl. two creates from one handle, a handle not at position 0, sources longer than the size) (sync/fsm x pre/post x io/memory, create / create_sized / "
     "init_from over a stale outboard / outboard() into pre-sized memory outboards / outboard_post_order writers) x contents "
     "{random, constant, repeating chunk, chunk-index pattern}. Observed: root, stored bytes, load() of every node, plus the harness's own "
     "comparison with blake3::hash and bao::encode::outboard. non-trivial = more than one chunk",
@@ -502,9 +502,10 @@ def gen_c05(tier, rng):
                 if tier == "quick":
                     cors = rng.sample(cors, min(len(cors), 8))
                 for c in cors:
-                    e = rng.choice([0, 1, 4])
                     ok = rng.randrange(0, 4)
-                    cases.append(("encode", [0, seed(rng), size, bs, e, ok, len(c) // 3] + c + q))
+                    sd = seed(rng)
+                    for e in (0, 1, 4):
+                        cases.append(("encode", [0, sd, size, bs, e, ok, len(c) // 3] + c + q))
     return cases
 
 
@@ -820,6 +821,12 @@ def gen_c06(tier, rng):
                     v = rng.randrange(0, 4)
                     ok = rng.randrange(0, 5)
                     cases.append(("validate", [0 if size else 0, seed(rng), size, bs, v, ok, len(c) // 3] + c + q))
+                # partially filled data file (shorter than the blob), with contents that repeat from group to group
+                if size > 1024:
+                    for _ in range(2):
+                        cut = rng.choice([rng.randrange(1, size), (rng.randrange(1, n)) * 1024, size - 1])
+                        for v in (0, 2):
+                            cases.append(("validate", [rng.choice([1, 2]), seed(rng), size, bs, v, rng.randrange(0, 4), 1, 4, cut, 0] + q))
     return cases
 
 
@@ -924,6 +931,7 @@ def hist_alphabet(size, bs, rng, k):
             ops.append((q, 2, i))
         for i in range(npar):
             ops.append((q, 3, i))
+            ops.append((q, 4, i))
     rng.shuffle(ops)
     # always keep a few completing ops so that histories converge
     comp = [(q, 0, 0) for q in ([0], [0, max(1, n // 2)], [n // 2])]
@@ -941,7 +949,7 @@ def gen_c07(tier, rng):
     depth = 2 if tier == "quick" else 3
     for size in sizes:
         for bs in range(0, 3):
-            combos = [(s, d) for s in range(0, 4) for d in (2, 3)]
+            combos = [(s, d) for s in range(0, 4) for d in (2, 3)] + [(5, 2), (6, 2)]   # 5 / 6: io-backed sinks over a store taking 48 bytes per write
             for (sink, driver) in (rng.sample(combos, 2) if tier == "quick" else combos):
                 alpha = hist_alphabet(size, bs, rng, 8 if tier == "quick" else 7)
                 sd = seed(rng)
